@@ -238,6 +238,17 @@ class RootVariant:
         if variant == "flagged_tree":
             self.root = build_flagged(lib, jv, self.arena, rnd)
             return
+        if variant == "nameless_member" and (jv[0] != "O" or not jv[1]):
+            variant = self.variant = "plain"
+        if variant == "nameless_member":
+            # a member replaced through cJSON_ReplaceItemViaPointer by an item that has no name: the printers write the name as ""
+            tree = build_tree(lib, jv)
+            i = rnd.randrange(len(jv[1]))
+            fresh = build_tree(lib, jv[1][i][1])
+            lib.cJSON_ReplaceItemViaPointer(tree, lib.children(tree)[i], fresh)
+            self.root = tree
+            self.jv = ["O", [[b"" if j == i else k, v] for j, (k, v) in enumerate(jv[1])]]
+            return
         tree = build_tree(lib, jv)
         self.root = tree
         if variant == "cs_member":
